@@ -205,10 +205,15 @@ Definition sc_buffer_offsets (s : listarr) : list (list nat) :=
   | _ => buffer_offsets s
   end.
 
-(* buffer_inner_offsets on those *)
+(* buffer_inner_offsets on those:
+     if len(buffer_offsets) == 1: return buffer_offsets[0]
+     start = buffer_offsets[0][0]; stop = buffer_offsets[0][-1]
+     for offsets in buffer_offsets[1:-1]: start = offsets[start]; stop = offsets[stop]
+     return buffer_offsets[-1][start:stop + 1] *)
 Definition sc_inner_offsets (s : listarr) : list nat :=
   match sc_buffer_offsets s with
   | [] => []
+  | [o0] => o0
   | o0 :: rest =>
       let '(st, en) :=
         fold_left (fun '(st, en) offs => (getn offs st, getn offs en))
